@@ -564,7 +564,7 @@ func TestKeyDocSweep(t *testing.T) {
 						if !vk.Mine(idx) {
 							continue
 						}
-						one(memCase{Op: o.Name, Alg: alg, Mode: mode, Len: []int{32, 47, 100, 3}[idx%4], Spare: sp, Text: text, Seed: uint64(idx) * 0x9e3779b97f4a7c15})
+						one(memCase{Op: o.Name, Alg: alg, Mode: mode, Len: []int{32, 47, 100, 3}[idx%4], Spare: sp, Text: text, Mem: sweepMem(idx), Seed: uint64(idx) * 0x9e3779b97f4a7c15})
 					}
 				}
 			}
